@@ -124,7 +124,7 @@ def run_case(case, tier):
         rx = sc.received()
         streams = {L: r for L, r in rx.items()}
         res = judge_streams(streams, {L: (sc.cl[L].closed_by_us, r["eof"]) for L, r in rx.items()},
-                            lambda f: sc.pubs.get(int(f.send_time)) if f.send_time == int(f.send_time) else None)
+                            lambda f: sc.pubs.get(f.pid))
         res["sig"] = sig_of(case["steps"])
         if sc.problems:
             res["inconclusive"] = "; ".join(sc.problems[:3])
@@ -317,7 +317,7 @@ def run_free(case):
             except W.ParseError as e:
                 streams[wc.label] = {"frames": [], "leftover": b"", "eof": wc.eof, "parse_error": str(e)}
         res = judge_streams(streams, {wc.label: (None, wc.eof) for wc in allc},
-                            lambda f: registry.get(int(f.send_time)) if f.send_time == int(f.send_time) else None)
+                            lambda f: registry.get(f.pid))
         res["sig"] = sig_of(case)
         res["counters"]["free_running_cases"] = 1
         res["sets"]["free_orders"] = [hash(tuple(rig.orders_seen[:200])) & 0xFFFFFF]
